@@ -23,7 +23,7 @@ LEVEL_NOTE = "Trusts numpy datetime64 arithmetic for decoding results and icontr
 RULE = ("case = chunk of (start, stop, dt, reference, direction) combinations; thorough adds the exhaustive lattice start,stop in 0..40 s, dt in 1..7 s, "
         "reference in {none, start-5, start+3}; every combination is stepped Nsteps+2 times and probed at steps -5..Nsteps+5. Non-trivial: Nsteps >= 1; "
         "distinct by (duration, dt, direction, reference offset).")
-MANDATORY = ["reference_time_1970-01-01", "requested_reference_time_compared_with_the_file", "warm_start_clock_checked", "zero_period_spellings", "reference_time_decades_before_the_run", "output_period_not_a_whole_number_of_steps", "output_file_time_values_checked", "forward", "reversed", "dt_not_dividing", "explicit_reference", "negative_steps_probed", "invariant_evaluations",
+MANDATORY = ["naive_datetime_under_a_non_UTC_time_zone", "warm_start_from_a_file_with_the_time_axis_in_other_units", "reference_time_1970-01-01", "requested_reference_time_compared_with_the_file", "warm_start_clock_checked", "zero_period_spellings", "reference_time_decades_before_the_run", "output_period_not_a_whole_number_of_steps", "output_file_time_values_checked", "forward", "reversed", "dt_not_dividing", "explicit_reference", "negative_steps_probed", "invariant_evaluations",
              "period_spellings_compared", "malformed_rejected", "resets_checked", "positioned_clock_updates"]
 ASSUMPTIONS = ["step2nctime is exercised with the documented units s, m, h only",
                "negative periods and a trailing newline are accepted by normalize_period and are not called malformed by the property"]
@@ -196,6 +196,27 @@ def _check_combo0(tk, S: int, E: int, d: int, R: int | None, dtspell: Any, V: li
         if t.time2step(str(tt)) != n or t.time2step(datetime.datetime.fromisoformat(str(tt))) != n:
             bad(f"time2step of the iso string / datetime of step {n} differs from {n}")
             break
+        if (S + d + n) % 7 == 0:
+            # model times carry no time zone: a (naive) datetime means the same instant whatever zone the process happens to run in
+            import os  # noqa: PLC0415
+            import time as _time  # noqa: PLC0415
+
+            old_tz = os.environ.get("TZ")
+            zone = ["CET-1", "EST5", "IST-5:30"][(S + n) % 3]
+            os.environ["TZ"] = zone
+            _time.tzset()
+            try:
+                got_tz = t.time2step(datetime.datetime.fromisoformat(str(tt)))
+            finally:
+                if old_tz is None:
+                    os.environ.pop("TZ", None)
+                else:
+                    os.environ["TZ"] = old_tz
+                _time.tzset()
+            sit["naive_datetime_under_a_non_UTC_time_zone"] = sit.get("naive_datetime_under_a_non_UTC_time_zone", 0) + 1
+            if got_tz != n:
+                bad(f"time2step(datetime of step {n}) = {got_tz} when the process runs in time zone {zone}")
+                break
         if t.step2isotime(n) != str(EPOCH + np.timedelta64(S + sgn * n * d, "s")):
             bad(f"step2isotime({n}) = {t.step2isotime(n)}")
             break
@@ -322,7 +343,24 @@ def _outfile(case, wd, V, sit, cnt, keys):
     sit["output_file_time_values_checked"] = len(times)
     if case["idx"] % 4 in (0, 3) and len(res.outputs) > 1:
         # the run taken up again from its first output file: the clock goes on from that file's last record, in the run's direction
-        run2 = dict(run, warm_start=dict(filename=str(res.outputs[0]), variables=[]))
+        wfile = res.outputs[0]
+        if case["idx"] % 8 in (0, 3):
+            # the restart file after post-processing that re-encoded its time axis (minutes / hours / days since the same reference): a CF time value
+            # is an offset in the unit the file names
+            import shutil  # noqa: PLC0415
+            from netCDF4 import Dataset as _DS  # noqa: PLC0415
+
+            wfile = wd / "restart_reencoded.nc"
+            shutil.copy(res.outputs[0], wfile)
+            unit, div = [("minutes", 60.0), ("hours", 3600.0), ("days", 86400.0)][(case["idx"] // 8) % 3]
+            with _DS(wfile, "r+") as nc_:
+                tv_ = nc_.variables["time"]
+                tv_.set_auto_maskandscale(False)
+                vals_ = np.array(tv_[:], float)
+                tv_[:] = vals_ / div
+                tv_.units = unit + " since" + tv_.units.split("since")[1]
+            sit["warm_start_from_a_file_with_the_time_axis_in_other_units"] = 1
+        run2 = dict(run, warm_start=dict(filename=str(wfile), variables=[]))
         run2["output"] = dict(run["output"], filename="out_001.nc")
         res2, _c2, _w2 = run_scenario(dict(world=None, run=run2), wd / "warm", world=_w)
         if not res2.ok:
